@@ -98,3 +98,13 @@ func (cp *CollectingProcess) VerifServerTLSConfig() (*tls.Config, error) {
 
 // VerifStopChan exposes the stop channel (to end handleTCPClient).
 func (cp *CollectingProcess) VerifStopChan() chan struct{} { return cp.stopChan }
+
+// VerifServeConn starts the per-connection handler for conn exactly as the
+// accept loop of startTCPServer does (wait-group accounting included).
+func (cp *CollectingProcess) VerifServeConn(conn net.Conn) {
+	cp.wg.Add(1)
+	go func() {
+		defer cp.wg.Done()
+		cp.handleTCPClient(conn)
+	}()
+}
